@@ -78,6 +78,11 @@ pub struct FftFixedInOut<T> {
     resampler: FftResampler<T>,
 }
 
+/// Integer division rounding up. Frame counts are not exactly representable as f32 above 2^24.
+fn div_ceil(value: usize, divisor: usize) -> usize {
+    (value + divisor - 1) / divisor
+}
+
 fn validate_sample_rates(input: usize, output: usize) -> Result<(), ResamplerConstructionError> {
     if input == 0 || output == 0 {
         return Err(ResamplerConstructionError::InvalidSampleRate { input, output });
@@ -213,7 +218,7 @@ where
 
         let gcd = integer::gcd(sample_rate_input, sample_rate_output);
         let min_chunk_in = sample_rate_input / gcd;
-        let fft_chunks = (chunk_size_in as f32 / min_chunk_in as f32).ceil() as usize;
+        let fft_chunks = div_ceil(chunk_size_in, min_chunk_in);
         let fft_size_out = fft_chunks * sample_rate_output / gcd;
         let fft_size_in = fft_chunks * sample_rate_input / gcd;
 
@@ -347,7 +352,7 @@ where
         let min_chunk_out = sample_rate_output / gcd;
         let wanted_subsize = chunk_size_out / sub_chunks;
         // At least one, also when sub_chunks is larger than the chunk size.
-        let fft_chunks = ((wanted_subsize as f32 / min_chunk_out as f32).ceil() as usize).max(1);
+        let fft_chunks = div_ceil(wanted_subsize, min_chunk_out).max(1);
         let fft_size_out = fft_chunks * sample_rate_output / gcd;
         let fft_size_in = fft_chunks * sample_rate_input / gcd;
 
@@ -365,7 +370,7 @@ where
         let channel_mask = vec![true; nbr_channels];
 
         let saved_frames = 0;
-        let chunks_needed = (chunk_size_out as f32 / fft_size_out as f32).ceil() as usize;
+        let chunks_needed = div_ceil(chunk_size_out, fft_size_out);
         let frames_needed = chunks_needed * fft_size_in;
 
         Ok(FftFixedOut {
@@ -455,13 +460,13 @@ where
             0
         };
         let input_frames_used = self.frames_needed;
-        let chunks_needed = (frames_needed_out as f32 / self.fft_size_out as f32).ceil() as usize;
+        let chunks_needed = div_ceil(frames_needed_out, self.fft_size_out);
         self.frames_needed = chunks_needed * self.fft_size_in;
         Ok((input_frames_used, self.chunk_size_out))
     }
 
     fn input_frames_max(&self) -> usize {
-        (self.chunk_size_out as f32 / self.fft_size_out as f32).ceil() as usize * self.fft_size_in
+        div_ceil(self.chunk_size_out, self.fft_size_out) * self.fft_size_in
     }
 
     fn input_frames_next(&self) -> usize {
@@ -505,7 +510,7 @@ where
             .for_each(|ch| ch.iter_mut().for_each(|s| *s = T::zero()));
         self.channel_mask.iter_mut().for_each(|val| *val = true);
         self.saved_frames = 0;
-        let chunks_needed = (self.chunk_size_out as f32 / self.fft_size_out as f32).ceil() as usize;
+        let chunks_needed = div_ceil(self.chunk_size_out, self.fft_size_out);
         self.frames_needed = chunks_needed * self.fft_size_in;
     }
 }
@@ -535,7 +540,7 @@ where
         let min_chunk_in = sample_rate_input / gcd;
         let wanted_subsize = chunk_size_in / sub_chunks;
         // At least one, also when sub_chunks is larger than the chunk size.
-        let fft_chunks = ((wanted_subsize as f32 / min_chunk_in as f32).ceil() as usize).max(1);
+        let fft_chunks = div_ceil(wanted_subsize, min_chunk_in).max(1);
         let fft_size_out = fft_chunks * sample_rate_output / gcd;
         let fft_size_in = fft_chunks * sample_rate_input / gcd;
 
@@ -590,8 +595,7 @@ where
         };
 
         let next_saved_frames = self.saved_frames + self.chunk_size_in;
-        let nbr_chunks_ready =
-            (next_saved_frames as f32 / self.fft_size_in as f32).floor() as usize;
+        let nbr_chunks_ready = next_saved_frames / self.fft_size_in;
         let needed_len = nbr_chunks_ready * self.fft_size_out;
 
         validate_buffers(
@@ -668,9 +672,7 @@ where
     }
 
     fn output_frames_next(&self) -> usize {
-        (((self.saved_frames + self.chunk_size_in) as f32) / self.fft_size_in as f32).floor()
-            as usize
-            * self.fft_size_out
+        (self.saved_frames + self.chunk_size_in) / self.fft_size_in * self.fft_size_out
     }
 
     fn output_delay(&self) -> usize {
